@@ -22,6 +22,8 @@ SLEEP_EXT = {'asyncio.sleep'}
 # Protocols whose implementations are supplied by the user (collaborators): calls through them are
 # fault sources.  Found by reading types.py; frozen.
 COLLAB_PROTOCOLS = {'ArtifactStoreLike', 'EventManagerLike'}
+# Protocols implemented by user node classes: calls through them run node code
+NODE_PROTOCOLS = {'NodeBase', 'RetryProtocol', 'RecurrentProtocol'}
 
 
 def ext_names(ev: Ev) -> List[str]:
@@ -48,8 +50,14 @@ class RunFaults(FaultPolicy):
         self.faulty_subscripts = faulty_subscripts or set()
 
     def call_may_raise(self, builder, call, targets, inst, awaited) -> bool:
-        if any(t[0] == 'proto' for t in targets):
-            return True
+        for t in targets:
+            if t[0] == 'proto':
+                # only user-implemented protocols are fault sources (collaborators, node code, a custom
+                # context, a custom entrypoint); engine-internal protocols (DAGLike accessors ...) are not
+                if t[1].name in COLLAB_PROTOCOLS or t[1].name in NODE_PROTOCOLS or t[1].name == 'PipelineContextLike':
+                    return True
+                if t[2] == 'run':
+                    return True
         if all(t[0] == 'unknown' for t in targets):
             return True
         for t in targets:
@@ -84,7 +92,9 @@ def may_raise_summary(p: Program, unit: FuncUnit, _stack=None) -> bool:
             break
         if isinstance(n, ast.Call):
             tg = env.resolve_call(n)
-            if all(t[0] == 'unknown' for t in tg) or any(t[0] == 'proto' for t in tg):
+            if all(t[0] == 'unknown' for t in tg) or any(
+                    t[0] == 'proto' and (t[1].name in COLLAB_PROTOCOLS or t[1].name in NODE_PROTOCOLS
+                                         or t[1].name == 'PipelineContextLike' or t[2] == 'run') for t in tg):
                 result = True
                 break
             for t in tg:
@@ -192,6 +202,13 @@ class Roles:
                 if self._mentions_run_method(t):
                     return 'executor'
             return None
+        for t in ev.info.get('targets', ()):
+            # a call through the node protocol (an annotated node object): user node code
+            if t[0] == 'proto' and t[1].name in NODE_PROTOCOLS:
+                if t[2] == 'get_default':
+                    return 'default'
+                if t[2] == 'process':
+                    return 'process'
         if not all(t[0] == 'unknown' for t in ev.info.get('targets', ())):
             return None
         ft = sym.term(self.p, c.func, ev.inst)
